@@ -7,6 +7,8 @@ import (
 	"errors"
 	"fmt"
 	"os"
+	"regexp"
+	"strings"
 	"sync"
 	"sync/atomic"
 
@@ -52,6 +54,68 @@ type FaultPlan struct {
 	// "done", when its rows are closed): the moment at which a caller that has read on one
 	// connection and not yet asked for the next one holds no connection at all.
 	Done bool
+	// SQL, when set, records the text and arguments of every statement (Stmts), with instants
+	// (integers that look like a millisecond or second clock) replaced by "T".
+	SQL   bool
+	Stmts []string
+}
+
+var wsRe = regexp.MustCompile(`\s+`)
+
+// "... (kid, pos, elem) values (" or "... (kid, pos, elem) select " right before the first placeholder
+var kidFirstRe = regexp.MustCompile(`\(kid,[^)]*\) (values \(|select )$`)
+
+func (p *FaultPlan) record(kind, query string, args []driver.NamedValue) {
+	if !p.SQL {
+		return
+	}
+	var b strings.Builder
+	b.WriteString(kind)
+	b.WriteString(": ")
+	b.WriteString(strings.TrimSpace(wsRe.ReplaceAllString(query, " ")))
+	// the placeholders that stand for a key's row id (they depend on the order in which keys
+	// were created, which for a multi-key call is the order a Go map was walked in)
+	norm := strings.TrimSpace(wsRe.ReplaceAllString(query, " "))
+	idArg := map[int]bool{}
+	n := 0
+	for i := 0; i < len(norm); i++ {
+		if norm[i] != '?' {
+			continue
+		}
+		before := norm[:i]
+		if strings.HasSuffix(before, "kid = ") || kidFirstRe.MatchString(before) {
+			idArg[n] = true
+		}
+		n++
+	}
+	for i, a := range args {
+		b.WriteString(" | ")
+		if idArg[i] {
+			b.WriteString("KID")
+			continue
+		}
+		switch v := a.Value.(type) {
+		case int64:
+			if v > 1500000000 {
+				b.WriteString("T")
+			} else {
+				fmt.Fprint(&b, v)
+			}
+		case []byte:
+			fmt.Fprintf(&b, "x%x", v)
+		case string:
+			fmt.Fprintf(&b, "s%x", v)
+		case float64:
+			fmt.Fprint(&b, v)
+		default:
+			fmt.Fprintf(&b, "%v", v)
+		}
+	}
+	p.mu.Lock()
+	if p.enabled {
+		p.Stmts = append(p.Stmts, b.String())
+	}
+	p.mu.Unlock()
 }
 
 var Plan = &FaultPlan{}
@@ -67,6 +131,7 @@ func (p *FaultPlan) Arm(failAt, exitAt int64, exitPost bool) {
 	p.exitPost = exitPost
 	p.Fired = false
 	p.Trace = nil
+	p.Stmts = nil
 	p.lastStmt = ""
 }
 
@@ -167,6 +232,7 @@ func (fc *faultConn) BeginTx(ctx context.Context, opts driver.TxOptions) (driver
 }
 
 func (fc *faultConn) ExecContext(ctx context.Context, query string, args []driver.NamedValue) (driver.Result, error) {
+	Plan.record("exec", query, args)
 	err, post := Plan.step("exec")
 	if err != nil {
 		return nil, err
@@ -179,6 +245,7 @@ func (fc *faultConn) ExecContext(ctx context.Context, query string, args []drive
 }
 
 func (fc *faultConn) QueryContext(ctx context.Context, query string, args []driver.NamedValue) (driver.Rows, error) {
+	Plan.record("query", query, args)
 	err, post := Plan.step("query")
 	if err != nil {
 		return nil, err
